@@ -88,9 +88,8 @@ CHECKS = {
              "points where 'the result accepts v' fails). 'Never returns a schema that cannot be generated from' is "
              "decided per run by the oracle on /repo (when every sub-schema of S generates accepted values under "
              "min/max/random tapes, so must S % v) - partial in that clause.",
-        note=COMMON_NOTE + "Open known finding: F28 (a rejected int beyond CPython's int->str digit limit: the "
-             "SubstitutionError message cannot be rendered, ValueError escapes; message rendering is outside the "
-             "model). F08, F09, F10 (NaN), F11, F22 were repaired by fix: commits.",
+        note=COMMON_NOTE + "No open known finding. F08, F09, F10 (NaN), F11, F22, F28, F31 (a '...' member of "
+             "an untyped dict) were repaired by fix: commits.",
         technique="Coq proof (outcome-class invariant + fixpoint lemma by nested induction over schemas and values) + vm_compute correspondence + direct oracle",
         design="6 C12"),
     "C18": dict(
@@ -166,7 +165,9 @@ CHECKS = {
              "of any length): decl_only_declerr / run_only_declerr (an arity-correct call never raises anything but "
              "DeclarationError), redeclare_rejected, decl_fixed_conforms + run_dsl_inv (a decidable invariant dsl_inv "
              "holds of every bare type and is preserved by every successful call; it implies that a fixed value - or "
-             "a fully fixed element list - conforms to its own schema; NaN included since the repair of F10: decl_nan_conforms). Tie: exhaustive call chains (length <= 2, sampled 3-4; thorough: <= 3) over a "
+             "a fully fixed element list - conforms to its own schema; NaN included since the repair of F10: decl_nan_conforms); dsl_built_wf / "
+             "dsl_inv_wf (every schema built by any chain of DSL calls whose regexes lie in the modelled fragment is "
+             "well-formed: this discharges the hypothesis wf of C02/C04/C05/C08/C12's theorems for DSL-built schemas). Tie: exhaustive call chains (length <= 2, sampled 3-4; thorough: <= 3) over a "
              "boundary universe run on /repo and compared with the model; oracle: exception class, receiver unchanged, "
              "validate(result, value), re-declaration rejected.",
         note=COMMON_NOTE + "Python arity errors (TypeError) are outside the property (arity_ok). F10 (NaN), "
@@ -206,10 +207,12 @@ CHECKS = {
              "model (gen_sound_full_refuted: F24; F29 witness) - partial in that sense. Tie: the real generator under "
              "tape policies all-min/all-max/alternating/random with a fixed world vs the model on the same tape (value, "
              "exception class, number of draws); tables of generator constants regenerated every run; oracle on /repo: "
-             "validate(S, fake(S)) for satisfiable S under those tapes and under the real seeded RNG.",
+             "validate(S, fake(S)) for satisfiable S (declared, combined with + and |, make_required, and produced by % "
+             "from plain values, partial values and values with ... placeholders) under those tapes and under the real "
+             "seeded RNG.",
         note=COMMON_NOTE + "Open known findings: F23 (uniform overflow; outside the tape contract, seen only with the "
-             "real RNG), F24 (unsatisfiable member may be visited), F29 (scaled bound overflows). F04, F05, F06, F07 "
-             "repaired by fix: commits.",
+             "real RNG), F24 (unsatisfiable member may be visited), F29 (scaled bound overflows). F04, F05, F06, F07, F30 "
+             "(padding up to min_len) repaired by fix: commits.",
         technique="Coq proof (returns-predicate over the tape monad, nested induction) + refutation witnesses by vm_compute + tape-scripted vm_compute correspondence + direct oracle",
         design="6 C01"),
     "C09": dict(
